@@ -1,8 +1,9 @@
 (* The pattern parser of the model on the grammar of literals, alternation and (capturing and
    non-capturing) groups, nested to any depth:
 
-     regexp ::= branch ( '|' branch )*        branch ::= ( run | group )*
+     regexp ::= branch ( '|' branch )*        branch ::= ( run | group | qchar )*
      group  ::= '(' regexp ')' | '(?:' regexp ')'      run ::= ordinary characters
+     qchar  ::= ordinary character ( '?' | '*' | '+' ) [ '?' ]
 
    Grammar trees [branch] / [alt] are printed to pattern text by [show_b] / [show_a]; they have a
    denotation [Db] / [Da] (the list of end positions of the matches from a start position) that
@@ -10,12 +11,20 @@
    returns an operation tree of the engine fragment whose results are that denotation;
    Proofs/GroupSpec.v proves the same of the specification's parser and semantics, and joins them. *)
 From RX Require Import Base.Prelude Base.InvList Tables.Consts Model.Case Model.Op Model.Engine Model.Matcher
-     Model.Compiler Proofs.EngineFacts Proofs.LowerFacts Proofs.PlainPattern Proofs.FrameFacts.
+     Model.Compiler Spec.Syntax Spec.Sem Proofs.EngineFacts Proofs.LowerFacts Proofs.QuantLaws Proofs.FixedFacts
+     Proofs.PlainPattern Proofs.FrameFacts.
 
 (* ---------------------------------------------------------------- grammar trees *)
+Inductive qk := QOpt | QStar | QPlus.
+Definition qsym (k : qk) : N := match k with QOpt => 63 | QStar => 42 | QPlus => 43 end.
+Definition qmin (k : qk) : N := match k with QPlus => 1 | _ => 0 end.
+Definition qmax (k : qk) : N := match k with QOpt => 1 | _ => umax end.              (* the engine's bound *)
+Definition qmaxo (k : qk) : option N := match k with QOpt => Some 1%N | _ => None end.   (* the specification's *)
+
 Inductive branch :=
 | BEnd (cs : list N)                                   (* a final run, possibly empty *)
 | BGrp (cs : list N) (cap : bool) (a : alt) (b : branch)   (* a run, possibly empty, a group, the rest *)
+| BQ (cs : list N) (c : N) (k : qk) (rel : bool) (b : branch)   (* a run, a quantified character, the rest *)
 with alt :=
 | AOne (b : branch)
 | ACons (b : branch) (a : alt).
@@ -28,6 +37,7 @@ Fixpoint show_b (b : branch) : list N :=
   match b with
   | BEnd cs => cs
   | BGrp cs cap a b' => cs ++ 40%N :: (if cap then [] else [63%N; 58%N]) ++ show_a a ++ 41%N :: show_b b'
+  | BQ cs c k rel b' => cs ++ c :: qsym k :: (if rel then [63%N] else []) ++ show_b b'
   end
 with show_a (a : alt) : list N :=
   match a with
@@ -40,6 +50,7 @@ Fixpoint ok_b (xpath : bool) (b : branch) : bool :=
   match b with
   | BEnd cs => forallb ordinary cs
   | BGrp cs cap a b' => forallb ordinary cs && (cap || xpath) && ok_a xpath a && ok_b xpath b'
+  | BQ cs c k rel b' => forallb ordinary cs && ordinary c && (negb rel || xpath) && ok_b xpath b'
   end
 with ok_a (xpath : bool) (a : alt) : bool :=
   match a with
@@ -57,12 +68,14 @@ Definition head_fine (l : list N) : Prop :=
 
 Lemma head_fine_b xpath b post : ok_b xpath b = true -> term_b post -> head_fine (show_b b ++ post).
 Proof.
-  intros Hok Ht. destruct b as [cs|cs cap a b']; cbn [show_b ok_b] in *.
+  intros Hok Ht. destruct b as [cs|cs cap a b'|cs c0 k rel b']; cbn [show_b ok_b] in *.
   - destruct cs as [|c t]; cbn [app].
     + destruct Ht as [->|(t & [->| ->])]; cbn; auto.
     + cbn [forallb] in Hok. apply andb_true_iff in Hok as [Hc _]. cbn. auto.
   - destruct cs as [|c t]; cbn [app]; [cbn; auto|].
     do 3 (apply andb_true_iff in Hok as [Hok ?]). cbn [forallb] in Hok. apply andb_true_iff in Hok as [Hc _]. cbn. auto.
+  - do 3 (apply andb_true_iff in Hok as [Hok ?]). destruct cs as [|c t]; cbn [app]; [cbn; auto|].
+    cbn [forallb] in Hok. apply andb_true_iff in Hok as [Hc _]. cbn. auto.
 Qed.
 
 Lemma head_fine_a xpath a post : ok_a xpath a = true -> term_a post -> head_fine (show_a a ++ post).
@@ -76,17 +89,23 @@ Qed.
 (* ---------------------------------------------------------------- denotation *)
 Section Den.
 Variable input : list N.
-Variable ci : bool.
+Variable ci multi : bool.
 Let n := length input.
 
 Definition lit (cs : list N) (p : nat) : list nat :=
   if Nat.ltb n (p + length cs) then []
   else if starts_with (ceq ci) cs (skipn p input) then [p + length cs] else [].
 
+(* a quantified character means what the specification says of it; flags other than i play no part *)
+Definition fl_of : sflags := {| s_i := ci; s_m := multi; s_s := false; s_x := false; s_q := false |}.
+Definition Dq (c : N) (k : qk) (rel : bool) (p : nat) : list nat :=
+  ends fl_of input (RQuant (RChar c) (qmin k) (qmaxo k) (negb rel)) p.
+
 Fixpoint Db (b : branch) (p : nat) : list nat :=
   match b with
   | BEnd cs => lit cs p
   | BGrp cs cap a b' => flat_map (Db b') (flat_map (Da a) (lit cs p))
+  | BQ cs c k rel b' => flat_map (Db b') (flat_map (Dq c k rel) (lit cs p))
   end
 with Da (a : alt) (p : nat) : list nat :=
   match a with
@@ -103,6 +122,11 @@ Lemma lit_le cs p q : In q (lit cs p) -> q <= n /\ p <= q.
 Proof.
   unfold lit. destruct (Nat.ltb n (p + length cs)) eqn:L; [intros []|]. apply Nat.ltb_ge in L.
   destruct (starts_with _ _ _); [|intros []]. intros [<-|[]]. lia.
+Qed.
+Lemma Dq_le c k rel p q : p <= n -> In q (Dq c k rel p) -> q <= n.
+Proof.
+  intros Hp H. unfold Dq in H. eapply (ends_le fl_of input); [|exact Hp|exact H].
+  cbn [quant_wf]. split; [exact I|]. destruct k; cbn; auto; lia.
 Qed.
 End Den.
 
@@ -128,6 +152,7 @@ Let good (o : op) : Prop := simple input ci multi false K o.
 Let R (o : op) : nat -> list nat := Rop input ci multi o.
 Let Ro (c : option op) (p : nat) : list nat := match c with Some o => R o p | None => [p] end.
 Let goodo (c : option op) : Prop := match c with Some o => good o | None => True end.
+Hypothesis Hfit : (N.of_nat n < umax)%N.
 
 (* positions in the pattern text *)
 Lemma at_skipn i : at_ pat i = hd_error (skipn i pat).
@@ -228,6 +253,88 @@ Proof.
       * apply skipn_nil_len in Hs1; [|lia]. apply Nat.ltb_lt in L1. lia.
       * cbn [rbind]. rewrite Hq. cbn [andb]. exact Tail.
     + cbn [rbind]. exact Tail.
+Qed.
+
+
+(* --- a quantified character: the scanner leaves it out of the run before it --- *)
+Lemma atom_loop_runq : forall cs fuel st ub c sym t, forallb ordinary cs = true -> ordinary c = true ->
+  is_quant sym = true -> skipn (idx st) pat = cs ++ c :: sym :: t -> idx st <= len -> length cs < fuel ->
+  (cs <> [] \/ ub <> []) ->
+  atom_loop pat xpath fuel st ub = Ok (rev cs ++ ub, set_idx (idx st + length cs) st).
+Proof.
+  induction cs as [|ch cs IH]; intros fuel st ub c sym t Ho Oc Hq Hs Hi Hf Hne; (destruct fuel as [|f]; [cbn in Hf; lia|]).
+  - destruct Hne as [Hne|Hne]; [contradiction|]. cbn [app] in Hs.
+    cbn [atom_loop rev app length]. fold len. rewrite Nat.add_0_r, set_idx_same.
+    destruct (skipn_step _ _ _ Hs) as [Hs1 Hlt]. destruct (skipn_step _ _ _ Hs1) as [_ Hlt1].
+    replace (Nat.leb len (idx st)) with false by (symmetry; apply Nat.leb_gt; lia).
+    replace (Nat.ltb (idx st + 1) len) with true by (symmetry; apply Nat.ltb_lt; lia).
+    rewrite at_skipn, Hs1. cbn [hd_error].
+    destruct (ordinary_tests c Oc) as (T1 & _).
+    rewrite (is_at_hd _ _ _ c_bslash Hs), T1. cbn [rbind]. rewrite Hq.
+    destruct ub; [contradiction|]. reflexivity.
+  - cbn [app] in Hs. cbn [forallb] in Ho. apply andb_true_iff in Ho as [Och Ho]. cbn [length] in Hf.
+    destruct (skipn_step _ _ _ Hs) as [Hs1 Hlt].
+    destruct (ordinary_tests ch Och) as (T1 & T2 & T3 & T4 & T5 & T6 & T7 & T8 & T9 & T10 & T11 & T12 & T13 & T14).
+    cbn [atom_loop]. fold len.
+    replace (Nat.leb len (idx st)) with false by (symmetry; apply Nat.leb_gt; lia).
+    assert (Hb : is_at pat (idx st) c_bslash = false) by (rewrite (is_at_hd _ _ _ _ Hs); exact T1).
+    assert (Hnx : exists c2 t2, cs ++ c :: sym :: t = c2 :: t2 /\ is_quant c2 = false).
+    { destruct cs as [|c2 cs2]; cbn [app].
+      - eexists _, _. split; [reflexivity|]. apply ordinary_not_quant. exact Oc.
+      - cbn [forallb] in Ho. apply andb_true_iff in Ho as [Oc2 _]. eexists _, _. split; [reflexivity|].
+        apply ordinary_not_quant. exact Oc2. }
+    destruct Hnx as (c2 & t2 & Enx & Hq2). rewrite Enx in Hs1.
+    destruct (skipn_step _ _ _ Hs1) as [_ Hlt1].
+    replace (Nat.ltb (idx st + 1) len) with true by (symmetry; apply Nat.ltb_lt; lia).
+    rewrite at_skipn, Hs1, Hb. cbn [hd_error rbind]. rewrite Hq2. cbn [andb].
+    rewrite at_skipn, Hs. cbn [hd_error]. rewrite T3, T9, T2, T4, T5, T8. cbn [orb].
+    rewrite (ordinary_not_quant ch Och), T7, T1, T10, T11. cbn [orb andb].
+    rewrite <- Enx in Hs1.
+    rewrite (IH f (adv 1 st) (ch :: ub) c sym t Ho Oc Hq) by (unfold adv, set_idx; cbn [idx]; auto; try lia; right; discriminate).
+    unfold adv, set_idx. cbn [idx parens bmin bmax captures hasbr rev length].
+    rewrite <- app_assoc. cbn [app]. f_equal. f_equal. f_equal. lia.
+Qed.
+
+Lemma qsym_facts k : is_quant (qsym k) = true
+  /\ ((qsym k =? c_rbrack) || (qsym k =? c_dot) || (qsym k =? c_lbrack) || (qsym k =? c_lparen)
+      || (qsym k =? c_rparen) || (qsym k =? c_bar))%N = false
+  /\ (qsym k =? c_bslash)%N = false.
+Proof. destruct k; repeat split; reflexivity. Qed.
+
+Lemma atom_loop_at_quant f st ub k t : ub <> [] -> skipn (idx st) pat = qsym k :: t -> idx st <= len ->
+  atom_loop pat xpath (S f) st ub = Ok (ub, st).
+Proof.
+  intros Hne Hs Hi. destruct (qsym_facts k) as (Q1 & Q2 & Q3).
+  destruct (skipn_step _ _ _ Hs) as [Hs1 Hlt].
+  cbn [atom_loop]. fold len.
+  replace (Nat.leb len (idx st)) with false by (symmetry; apply Nat.leb_gt; lia).
+  rewrite (is_at_hd _ _ _ c_bslash Hs), Q3.
+  destruct (Nat.ltb (idx st + 1) len) eqn:L2.
+  - rewrite (at_skipn (idx st + 1)), Hs1. destruct t as [|c3 t3]; cbn [hd_error].
+    + apply skipn_nil_len in Hs1; [|lia]. apply Nat.ltb_lt in L2. lia.
+    + cbn [rbind]. destruct (is_quant c3 && _); [reflexivity|].
+      rewrite (at_skipn (idx st)), Hs. cbn [hd_error]. rewrite Q2, Q1. destruct ub; [contradiction|reflexivity].
+  - cbn [rbind]. rewrite (at_skipn (idx st)), Hs. cbn [hd_error]. rewrite Q2, Q1. destruct ub; [contradiction|reflexivity].
+Qed.
+
+Lemma atom_loop_single f st c k t : ordinary c = true ->
+  skipn (idx st) pat = c :: qsym k :: t -> idx st <= len ->
+  atom_loop pat xpath (S (S f)) st [] = Ok ([c], adv 1 st).
+Proof.
+  intros Oc Hs Hi. destruct (qsym_facts k) as (Q1 & Q2 & Q3).
+  destruct (skipn_step _ _ _ Hs) as [Hs1 Hlt]. destruct (skipn_step _ _ _ Hs1) as [Hs2 Hlt1].
+  destruct (ordinary_tests c Oc) as (T1 & T2 & T3 & T4 & T5 & T6 & T7 & T8 & T9 & T10 & T11 & T12 & T13 & T14).
+  assert (Next : atom_loop pat xpath (S f) (adv 1 st) [c] = Ok ([c], adv 1 st)).
+  { apply (atom_loop_at_quant f (adv 1 st) [c] k t); [discriminate|exact Hs1|unfold adv, set_idx; cbn [idx]; lia]. }
+  remember (S f) as f1 eqn:Ef1.
+  cbn [atom_loop]. fold len.
+  replace (Nat.leb len (idx st)) with false by (symmetry; apply Nat.leb_gt; lia).
+  replace (Nat.ltb (idx st + 1) len) with true by (symmetry; apply Nat.ltb_lt; lia).
+  rewrite (at_skipn (idx st + 1)), Hs1. cbn [hd_error]. rewrite (is_at_hd _ _ _ c_bslash Hs), T1. cbn [rbind andb negb].
+  rewrite andb_false_r.
+  rewrite (at_skipn (idx st)), Hs. cbn [hd_error]. rewrite T3, T9, T2, T4, T5, T8. cbn [orb].
+  rewrite (ordinary_not_quant c Oc), T7, T1, T10, T11. cbn [orb andb].
+  exact Next.
 Qed.
 
 (* --- no quantifier follows: quantify hands the term back --- *)
@@ -445,6 +552,101 @@ Proof.
   - apply framed_choice. apply Forall_rev. exact H.
 Qed.
 
+
+(* --- a quantified character --- *)
+Definition qop (c : N) (k : qk) (rel : bool) : op :=
+  (if rel then ORFixed else OGFixed) (OAtom [c]) (qmin k) (qmax k) 1%N.
+
+Lemma quantify_char c k rel st rest : negb rel || xpath = true -> head_fine rest ->
+  skipn (idx st) pat = qsym k :: (if rel then [63%N] else []) ++ rest -> idx st <= len ->
+  quantify pat xpath (OAtom [c]) st = Ok (qop c k rel, adv (if rel then 2 else 1) st).
+Proof.
+  intros Hx Hh Hs Hi. destruct (skipn_step _ _ _ Hs) as [Hs1 Hlt].
+  unfold quantify. fold len.
+  replace (Nat.leb len (idx st)) with false by (symmetry; apply Nat.leb_gt; lia).
+  rewrite (at_skipn (idx st)), Hs. cbn [hd_error].
+  assert (G : (if Nat.ltb (idx (adv 1 st)) len && is_at pat (idx (adv 1 st)) 63%N
+               then if negb xpath then Err ESyntax else Ok (false, adv 1 (adv 1 st))
+               else Ok (true, adv 1 st)) = Ok (negb rel, adv (if rel then 2 else 1) st)).
+  { unfold adv at 1 2, set_idx. cbn [idx]. destruct rel; cbn [app negb] in *.
+    - cbn [orb] in Hx. rewrite Hx. destruct (skipn_step _ _ _ Hs1) as [_ Hlt1].
+      replace (Nat.ltb (idx st + 1) len) with true by (symmetry; apply Nat.ltb_lt; lia).
+      rewrite (is_at_hd _ _ _ 63%N Hs1). change (63 =? 63)%N with true. cbn [andb negb].
+      unfold adv, set_idx. cbn [idx parens bmin bmax captures hasbr]. do 2 f_equal. f_equal. lia.
+    - destruct rest as [|c2 t2].
+      + apply skipn_nil_len in Hs1; [|lia]. rewrite Hs1, Nat.ltb_irrefl. reflexivity.
+      + rewrite (is_at_hd _ _ _ 63%N Hs1).
+        assert (c2 =? 63 = false)%N.
+        { cbn in Hh. destruct Hh as [Ho|[->|[->| ->]]]; try reflexivity.
+          destruct (ordinary_tests c2 Ho) as (_ & _ & _ & _ & _ & _ & _ & _ & _ & _ & _ & T12 & _). exact T12. }
+        rewrite H, andb_false_r. reflexivity. }
+  destruct k; cbn [qsym]; cbv [c_qmark c_star c_plus c_lbrace]; cbn [N.eqb Pos.eqb orb rbind];
+    cbn [is_bol_eol mes]; change (zls_never =? zls_any)%N with false; cbv iota; cbn [rbind];
+    rewrite G; cbn [rbind]; destruct rel; reflexivity.
+Qed.
+
+Lemma piece_runq f st c0 cs c k t : forallb ordinary (c0 :: cs) = true -> ordinary c = true ->
+  skipn (idx st) pat = (c0 :: cs) ++ c :: qsym k :: t -> idx st <= len ->
+  piece pat xpath ci single (S (S f)) st = Ok (OAtom (c0 :: cs), set_idx (idx st + length (c0 :: cs)) st).
+Proof.
+  intros Ho Oc Hs Hi.
+  assert (Hl : idx st + length (c0 :: cs) + length (c :: qsym k :: t) = len) by (apply skipn_len_le; auto).
+  pose proof Ho as Ho'. cbn [forallb] in Ho'. apply andb_true_iff in Ho' as [Oc0 _].
+  destruct (ordinary_tests c0 Oc0) as (T1 & T2 & T3 & T4 & T5 & T6 & T7 & T8 & T9 & T10 & T11 & T12 & T13 & T14).
+  rewrite piece_S, parse_terminal_S, (at_skipn (idx st)), Hs. cbn [app hd_error].
+  rewrite T11, T10, T9, T2, T4, T5, T8, T3, (ordinary_not_quant c0 Oc0), T1. cbn [andb].
+  unfold parse_atom. fold len.
+  rewrite (atom_loop_runq (c0 :: cs) (len + 2) st [] c (qsym k) t Ho Oc (proj1 (qsym_facts k)) Hs Hi)
+    by (cbn [length] in *; try lia; left; discriminate).
+  cbn [rbind]. rewrite app_nil_r.
+  destruct (rev (c0 :: cs)) as [|x t'] eqn:E.
+  { exfalso. assert (H : rev (rev (c0 :: cs)) = []) by (rewrite E; reflexivity). rewrite rev_involutive in H. discriminate. }
+  rewrite <- E, rev_involutive.
+  apply quantify_none.
+  - unfold set_idx. cbn [idx]. cbn [length] in *. lia.
+  - unfold set_idx. cbn [idx]. rewrite (skipn_app_len _ _ _ Hs). cbn. auto.
+Qed.
+
+Lemma piece_qchar f st c k rel rest : ordinary c = true -> negb rel || xpath = true -> head_fine rest ->
+  skipn (idx st) pat = c :: qsym k :: (if rel then [63%N] else []) ++ rest -> idx st <= len ->
+  piece pat xpath ci single (S (S f)) st = Ok (qop c k rel, adv (if rel then 3 else 2) st).
+Proof.
+  intros Oc Hx Hh Hs Hi. destruct (skipn_step _ _ _ Hs) as [Hs1 Hlt].
+  assert (Hl : idx st + 1 + length (qsym k :: (if rel then [63%N] else []) ++ rest) = len).
+  { pose proof (skipn_length (idx st) pat) as L. rewrite Hs in L. fold len in L. cbn [length] in *. lia. }
+  destruct (ordinary_tests c Oc) as (T1 & T2 & T3 & T4 & T5 & T6 & T7 & T8 & T9 & T10 & T11 & T12 & T13 & T14).
+  rewrite piece_S, parse_terminal_S, (at_skipn (idx st)), Hs. cbn [hd_error].
+  rewrite T11, T10, T9, T2, T4, T5, T8, T3, (ordinary_not_quant c Oc), T1. cbn [andb].
+  unfold parse_atom. fold len.
+  replace (len + 2) with (S (S len)) by lia.
+  rewrite (atom_loop_single len st c k _ Oc Hs Hi). cbn [rbind rev app].
+  rewrite (quantify_char c k rel (adv 1 st) rest Hx Hh Hs1) by (unfold adv, set_idx; cbn [idx]; lia).
+  unfold adv, set_idx. cbn [idx parens bmin bmax captures hasbr]. do 2 f_equal. destruct rel; f_equal; lia.
+Qed.
+
+Lemma qop_good c k rel : good (qop c k rel).
+Proof.
+  unfold good, qop. assert (H : forall p q, In q (Rop input ci multi (OAtom [c]) p) -> q = p + N.to_nat 1).
+  { intros p q. cbn [Rop length]. destruct (Nat.ltb (length input) (p + 1)); [intros []|].
+    destruct (starts_with _ _ _); [|intros []]. intros [<-|[]]. reflexivity. }
+  destruct rel; cbn [simple]; (split; [exact I|split; [reflexivity|exact H]]).
+Qed.
+
+Lemma qop_sem c k rel p q : p <= n -> (In q (R (qop c k rel) p) <-> In q (Dq input ci multi c k rel p)).
+Proof.
+  intros Hp. unfold R, Dq.
+  apply (lowersq_ends input ci multi false K (fl_of ci multi) eq_refl eq_refl Hfit); auto.
+  - (* plainq *)
+    assert (H : forall p0 q0, In q0 (Rop input ci multi (OAtom [c]) p0) -> q0 = p0 + N.to_nat 1).
+    { intros p0 q0. cbn [Rop length]. destruct (Nat.ltb (length input) (p0 + 1)); [intros []|].
+      destruct (starts_with _ _ _); [|intros []]. intros [<-|[]]. reflexivity. }
+    unfold qop. destruct rel; cbn [plainq]; (split; [exact I|]); (split; [reflexivity|]);
+      (split; [destruct k; reflexivity|]); (split; [destruct k; cbn; try discriminate; try lia|exact H]).
+  - cbn [quant_wf]. split; [exact I|]. destruct k; cbn; auto; lia.
+  - unfold qop. destruct rel; cbn [lowersq unnc negb]; [exists (RChar c), false|exists (RChar c), true];
+      (split; [destruct k; reflexivity|]); right; exists c; split; reflexivity.
+Qed.
+
 Lemma good_choice bs : Forall good bs -> good (OChoice bs).
 Proof.
   unfold good. intros H. cbn [simple]. induction H as [|x t Hx Ht IH]; [exact I|]. split; [exact Hx|exact IH].
@@ -474,7 +676,7 @@ Definition P_b (b : branch) : Prop :=
     6 * length (show_b b) + 6 <= fuel -> goodo cur ->
     exists r st', branch_loop pat xpath ci single fuel st cur = Ok (r, st')
       /\ idx st' = idx st + length (show_b b) /\ hasbr st' = hasbr st /\ goodo r
-      /\ (forall p q, p <= n -> (In q (Ro r p) <-> exists m, In m (Ro cur p) /\ In q (Db input ci b m)))
+      /\ (forall p q, p <= n -> (In q (Ro r p) <-> exists m, In m (Ro cur p) /\ In q (Db input ci multi b m)))
       /\ (1 <= parens st -> fro cur -> fro r /\ parens st <= parens st').
 
 Definition P_a (a : alt) : Prop :=
@@ -485,7 +687,7 @@ Definition P_a (a : alt) : Prop :=
       /\ branches_loop pat xpath ci single f2 st1 (o :: acc) = Ok (bs, st')
       /\ idx st' = idx st + length (show_a a) /\ hasbr st' = hasbr st /\ Forall good bs /\ bs <> []
       /\ (forall p q, p <= n -> ((exists x, In x bs /\ In q (R x p))
-                                  <-> (exists x, In x acc /\ In q (R x p)) \/ In q (Da input ci a p)))
+                                  <-> (exists x, In x acc /\ In q (R x p)) \/ In q (Da input ci multi a p)))
       /\ (1 <= parens st -> Forall framed acc -> Forall framed bs /\ parens st <= parens st').
 
 (* a run (possibly empty) before a group: parsed into the current term, the loop goes on *)
@@ -511,6 +713,33 @@ Proof.
       replace (Nat.ltb (idx st) len) with true by (symmetry; apply Nat.ltb_lt; exact Hlt).
       rewrite (is_at_hd _ _ _ c_bar Hs), (is_at_hd _ _ _ c_rparen Hs), T8, T5. cbn [negb andb].
       rewrite (piece_run f st c cs (40%N :: t) Ho) by (cbn; auto). cbn [rbind]. reflexivity. }
+    split; [reflexivity|]. split; [reflexivity|]. split; [apply push_good; [exact Hg|exact I]|].
+    split; [|split; [reflexivity|intros Hfr; apply push_fr; [exact Hfr|exact I]]].
+    intros p q Hp. rewrite push_sem by (auto; exact I). reflexivity.
+Qed.
+
+Lemma run_prefix_q cs c k t st cur fuel : forallb ordinary cs = true -> ordinary c = true ->
+  skipn (idx st) pat = cs ++ c :: qsym k :: t -> idx st <= len -> 3 <= fuel -> goodo cur ->
+  exists fuel' cur1 st1, fuel <= fuel' + 1 /\ fuel' <= fuel
+    /\ branch_loop pat xpath ci single fuel st cur = branch_loop pat xpath ci single fuel' st1 cur1
+    /\ idx st1 = idx st + length cs /\ hasbr st1 = hasbr st /\ goodo cur1
+    /\ (forall p q, p <= n -> (In q (Ro cur1 p) <-> exists m, In m (Ro cur p) /\ In q (lit input ci cs m)))
+    /\ parens st1 = parens st /\ (fro cur -> fro cur1).
+Proof.
+  intros Ho Oc Hs Hi Hf Hg. destruct cs as [|c0 cs].
+  - exists fuel, cur, st. split; [lia|]. split; [lia|]. split; [reflexivity|]. split; [cbn [length]; lia|].
+    split; [reflexivity|]. split; [exact Hg|]. split; [|split; [reflexivity|auto]]. intros p q Hp. split.
+    + intros Hin. exists q. split; auto. rewrite lit_nil; [left; reflexivity|]. eapply Ro_le; eauto.
+    + intros (m & Hm & Hq). rewrite lit_nil in Hq by (eapply Ro_le; eauto). destruct Hq as [<-|[]]. exact Hm.
+  - destruct fuel as [|[|[|f]]]; try lia.
+    pose proof Ho as Ho'. cbn [forallb] in Ho'. apply andb_true_iff in Ho' as [Oc0 _].
+    destruct (ordinary_tests c0 Oc0) as (T1 & T2 & T3 & T4 & T5 & T6 & T7 & T8 & T9 & T10 & T11 & T12 & T13 & T14).
+    exists (S (S f)), (push cur (OAtom (c0 :: cs))), (set_idx (idx st + length (c0 :: cs)) st).
+    split; [lia|]. split; [lia|]. split.
+    { rewrite branch_loop_S. fold len. destruct (skipn_step _ _ _ Hs) as [_ Hlt].
+      replace (Nat.ltb (idx st) len) with true by (symmetry; apply Nat.ltb_lt; exact Hlt).
+      rewrite (is_at_hd _ _ _ c_bar Hs), (is_at_hd _ _ _ c_rparen Hs), T8, T5. cbn [negb andb].
+      rewrite (piece_runq f st c0 cs c k t Ho Oc Hs Hi). cbn [rbind]. reflexivity. }
     split; [reflexivity|]. split; [reflexivity|]. split; [apply push_good; [exact Hg|exact I]|].
     split; [|split; [reflexivity|intros Hfr; apply push_fr; [exact Hfr|exact I]]].
     intros p q Hp. rewrite push_sem by (auto; exact I). reflexivity.
@@ -568,7 +797,7 @@ Proof.
     destruct (skipn_step _ _ _ Hs1) as [Hs2 Hlt1].
     assert (Hexpr : exists o st4, parse_expr pat xpath ci single (S f4) false st1 = Ok (o, st4)
               /\ idx st4 = idx st1 + 1 + length opt + length inner + 1 /\ hasbr st4 = hasbr st1 /\ good o
-              /\ (forall p q, p <= n -> (In q (R o p) <-> In q (Da input ci a p)))
+              /\ (forall p q, p <= n -> (In q (R o p) <-> In q (Da input ci multi a p)))
               /\ (1 <= parens st1 -> framed o /\ parens st1 <= parens st4)).
     { rewrite parse_expr_grp_S. cbv zeta. rewrite at_skipn, Hs1. cbn [hd_error]. change (40 =? c_lparen)%N with true. cbv iota.
       assert (Hopen : exists paren group st2,
@@ -609,7 +838,7 @@ Proof.
       destruct (skipn_step _ _ _ Hs3) as [_ Hlt3].
       replace (Nat.ltb (idx st3) len) with true by (symmetry; apply Nat.ltb_lt; exact Hlt3).
       rewrite (is_at_hd _ _ _ c_rparen Hs3). change (41 =? c_rparen)%N with true. cbn [andb].
-      assert (SemA : forall p q, p <= n -> (In q (R (alt_op bs) p) <-> In q (Da input ci a p))).
+      assert (SemA : forall p q, p <= n -> (In q (R (alt_op bs) p) <-> In q (Da input ci multi a p))).
       { intros p q Hp. rewrite (alt_op_sem bs p q Nbs), (Sem p q Hp). split; [intros [(x & [] & _)|H]; exact H|auto]. }
       destruct cap.
       - eexists _, _. split; [reflexivity|]. unfold adv, set_idx. cbn [idx hasbr parens]. split; [lia|]. split; [congruence|].
@@ -654,6 +883,59 @@ Proof.
       exists m. split; [|exact Hq]. apply push_sem; auto. exists m1. split.
       * apply (Sem1 p m1 Hp). eauto.
       * apply Semg; [|exact Hm]. apply (lit_le input ci cs m0 m1) in Hm1. lia.
+  - (* BQ *) intros cs c k rel b' IHb Hok post st cur fuel Hs Hi Ht Hf Hg.
+    cbn [ok_b] in Hok. apply andb_true_iff in Hok as [Hok Okb]. apply andb_true_iff in Hok as [Hok Hrx].
+    apply andb_true_iff in Hok as [Ocs Oc]. cbn [show_b] in Hs, Hf |- *.
+    set (ropt := if rel then [63%N] else []) in *. set (rest := show_b b') in *.
+    assert (Lsh : length (cs ++ c :: qsym k :: ropt ++ rest) = length cs + 2 + length ropt + length rest).
+    { rewrite !app_length. cbn [length]. rewrite !app_length. lia. }
+    rewrite Lsh in Hf |- *.
+    assert (Hs' : skipn (idx st) pat = cs ++ c :: qsym k :: ropt ++ rest ++ post).
+    { rewrite Hs. rewrite <- app_assoc. cbn [app]. rewrite <- !app_assoc. reflexivity. }
+    clear Hs. rename Hs' into Hs.
+    assert (Hlen : idx st + (length cs + (2 + (length ropt + (length rest + length post)))) = len).
+    { pose proof (skipn_length (idx st) pat) as L. rewrite Hs in L. fold len in L.
+      rewrite app_length in L. cbn [length] in L. rewrite !app_length in L. lia. }
+    destruct (run_prefix_q cs c k _ st cur fuel Ocs Oc Hs Hi ltac:(lia) Hg)
+      as (fuel1 & cur1 & st1 & Hf1 & Hf1' & Eloop & Hi1 & Hb1 & Hg1 & Sem1 & Hp1 & Fr1).
+    rewrite Eloop.
+    pose proof (skipn_app_len _ _ _ Hs) as Hs1. rewrite <- Hi1 in Hs1.
+    assert (Hi1' : idx st1 <= len) by lia.
+    destruct fuel1 as [|[|[|f]]]; try lia.
+    destruct (skipn_step _ _ _ Hs1) as [_ Hlt1].
+    destruct (ordinary_tests c Oc) as (T1 & T2 & T3 & T4 & T5 & T6 & T7 & T8 & T9 & T10 & T11 & T12 & T13 & T14).
+    assert (Hh : head_fine (rest ++ post)) by (apply (head_fine_b xpath); auto).
+    rewrite branch_loop_S. fold len.
+    replace (Nat.ltb (idx st1) len) with true by (symmetry; apply Nat.ltb_lt; exact Hlt1).
+    rewrite (is_at_hd _ _ _ c_bar Hs1), (is_at_hd _ _ _ c_rparen Hs1), T8, T5. cbn [negb andb].
+    rewrite (piece_qchar f st1 c k rel (rest ++ post) Oc Hrx Hh Hs1 Hi1'). cbn [rbind]. fold (push cur1 (qop c k rel)).
+    set (st2 := adv (if rel then 3 else 2) st1).
+    assert (Hi2 : idx st2 = idx st1 + 2 + length ropt).
+    { subst st2 ropt. unfold adv, set_idx. destruct rel; cbn [idx length]; lia. }
+    assert (Hs2 : skipn (idx st2) pat = rest ++ post).
+    { rewrite Hi2. replace (idx st1 + 2 + length ropt) with (idx st1 + length (c :: qsym k :: ropt)) by (cbn [length]; lia).
+      apply (skipn_app_len (idx st1) (c :: qsym k :: ropt)). rewrite Hs1. cbn [app]. reflexivity. }
+    destruct (IHb Okb post st2 (push cur1 (qop c k rel)) (S (S f)) Hs2 ltac:(lia) Ht ltac:(fold rest; lia)
+                (push_good _ _ Hg1 (qop_good c k rel)))
+      as (r & st' & E & Hi' & Hb' & Gr & Sem' & Fr').
+    exists r, st'. split; [exact E|]. fold rest in Hi'. split; [lia|].
+    split; [rewrite Hb'; subst st2; unfold adv, set_idx; cbn [hasbr]; exact Hb1|]. split; [exact Gr|].
+    split.
+    2:{ intros H1 Hfr.
+        assert (Fq : framed (qop c k rel)) by (unfold qop; destruct rel; exact I).
+        destruct (Fr' ltac:(subst st2; unfold adv, set_idx; cbn [parens]; lia) (push_fr _ _ (Fr1 Hfr) Fq)) as [Fr Hp'].
+        split; [exact Fr|]. subst st2. unfold adv, set_idx in Hp'. cbn [parens] in Hp'. lia. }
+    intros p q Hp. rewrite (Sem' p q Hp). cbn [Db]. split.
+    + intros (m & Hm & Hq). apply push_sem in Hm; auto using qop_good. destruct Hm as (m1 & Hm1 & Hm).
+      apply (Sem1 p m1 Hp) in Hm1. destruct Hm1 as (m0 & Hm0 & Hm1).
+      exists m0. split; [exact Hm0|]. apply in_flat_map. exists m. split; [|exact Hq].
+      apply in_flat_map. exists m1. split; [exact Hm1|].
+      apply qop_sem; [|exact Hm]. apply (lit_le input ci cs m0 m1) in Hm1. lia.
+    + intros (m0 & Hm0 & Hq). apply in_flat_map in Hq. destruct Hq as (m & Hm & Hq).
+      apply in_flat_map in Hm. destruct Hm as (m1 & Hm1 & Hm).
+      exists m. split; [|exact Hq]. apply push_sem; auto using qop_good. exists m1. split.
+      * apply (Sem1 p m1 Hp). eauto.
+      * apply qop_sem; [|exact Hm]. apply (lit_le input ci cs m0 m1) in Hm1. lia.
   - (* AOne *) intros b IHb Hok post st acc f1 f2 Hs Hi Ht Hf1 Hf2 Hacc. cbn [show_a ok_a] in *.
     destruct f1 as [|f1]; [lia|]. destruct f2 as [|f2]; [lia|].
     assert (Htb : term_b post) by (destruct Ht as [->|(t & ->)]; [left; auto|right; eauto]).
@@ -672,7 +954,7 @@ Proof.
     2:{ intros H1 Hacc'. destruct (Frb H1 I) as [Fr Hp']. split; [|exact Hp'].
         constructor; [|exact Hacc']. subst o. destruct r; [exact Fr|exact I]. }
     intros p q Hp.
-    assert (So : In q (R o p) <-> In q (Db input ci b p)).
+    assert (So : In q (R o p) <-> In q (Db input ci multi b p)).
     { subst o. pose proof (Sem p q Hp) as S0. destruct r as [c|]; cbn [Ro] in S0; [|change (R ONothing p) with [p]]; rewrite S0;
         (split; [intros (m & [<-|[]] & H); exact H|intros H; exists p; cbn; auto]). }
     cbn [Da]. split.
@@ -705,7 +987,7 @@ Proof.
         unfold adv, set_idx in FrA. cbn [parens] in FrA.
         destruct (FrA ltac:(lia) ltac:(constructor; auto)) as [Fbs Hp2]. split; [exact Fbs|lia]. }
     intros p q Hp.
-    assert (So : In q (R o p) <-> In q (Db input ci b p)).
+    assert (So : In q (R o p) <-> In q (Db input ci multi b p)).
     { subst o. pose proof (Sem p q Hp) as S0. destruct r as [c|]; cbn [Ro] in S0; [|change (R ONothing p) with [p]]; rewrite S0;
         (split; [intros (m & [<-|[]] & H); exact H|intros H; exists p; cbn; auto]). }
     rewrite (Sem2 p q Hp). cbn [Da]. rewrite in_app_iff. split.
@@ -717,7 +999,7 @@ Qed.
 Theorem parse_expr_grammar a : ok_a xpath a = true -> pat = show_a a ->
   exists top st', parse_expr pat xpath ci single (8 * len + 16) true st_init = Ok (top, st')
     /\ idx st' = len /\ hasbr st' = false /\ good top
-    /\ (forall p q, p <= n -> (In q (R top p) <-> In q (Da input ci a p)))
+    /\ (forall p q, p <= n -> (In q (R top p) <-> In q (Da input ci multi a p)))
     /\ framed top.
 Proof.
   intros Hok Hpat. destruct model_parses as [_ PA].
